@@ -3,6 +3,7 @@
   ./vcheck selftest determinism [--seeds N] [--props C10,C03,...]
   ./vcheck selftest fidelity    [--seeds N]
   ./vcheck selftest sensitivity [--only id,...] [--runs N]
+  ./vcheck selftest reach
 """
 from __future__ import annotations
 
@@ -195,6 +196,32 @@ def cmd_sensitivity(argv):
     return 0 if not missed else 1
 
 
+def cmd_reach(argv):
+    """Every probe / fault kind the design relies on must have fired at least once in the committed quick evidence."""
+    need = {
+        "C10": {"fault_kinds_fired_runs": ["F1_concurrent_runs", "F2_preemption_runs", "F6_cache_clear_runs", "F7_reexecution_runs", "F8_read_error_runs", "F10_process_boundary_runs"],
+                "probes": ["twin_ops", "iso_ops", "padded", "hot_events", "storage_reads", "sites"]},
+        "C03": {"fault_kinds_fired_runs": ["F1_concurrent_runs", "F2_preemption_runs"], "probes": ["history_steps", "sites"]},
+        "C09": {"fault_kinds_fired_runs": ["F1_concurrent_runs", "F2_preemption_runs", "F7_reexecution_runs"], "probes": ["splits_decoded"]},
+        "C15": {"fault_kinds_fired_runs": ["F1_concurrent_runs", "F2_preemption_runs"], "probes": ["binned_loaders"]},
+        "C18": {"fault_kinds_fired_runs": ["F1_concurrent_runs"], "probes": []},
+        "C20": {"fault_kinds_fired_runs": ["F1_concurrent_runs", "F2_preemption_runs"], "probes": ["layouts", "particles"]},
+    }
+    bad = 0
+    for prop, req in need.items():
+        path = os.path.join(runner.VERIF_DIR, "evidence", f"{prop}.json")
+        cov = json.load(open(path))["coverage"]
+        for group, keys in req.items():
+            for k in keys:
+                v = cov.get(group, {}).get(k, 0)
+                if not v:
+                    bad += 1
+                    print(f"reach {prop}: {group}.{k} is zero")
+        print(f"reach {prop}: evaluations={cov['evaluations']} distinct_interleavings={cov['distinct_interleavings']} distinct_task_orders={cov['distinct_task_orders']}")
+    print("reach:", "OK" if not bad else f"FAILED ({bad} probes at zero)")
+    return 0 if not bad else 1
+
+
 def main(argv):
     if not argv:
         print(__doc__)
@@ -208,5 +235,7 @@ def main(argv):
         return cmd_fidelity(rest)
     if cmd == "sensitivity":
         return cmd_sensitivity(rest)
+    if cmd == "reach":
+        return cmd_reach(rest)
     print(__doc__)
     return 2
